@@ -88,3 +88,42 @@ pub mod x86 {
     lanewise!(mm256_sub_epi32, __m256i, u32, 8, wrapping_sub);
     lanewise!(mm256_mullo_epi32, __m256i, u32, 8, wrapping_mul);
 }
+
+/// Models of the three intrinsics Kani cannot execute at all (bucket aggregation back ends),
+/// written from the Intel SDM; like the wrapping models above they are ASSUMED contracts,
+/// validated natively against the real instructions by /verif/kani/validate at set-up.
+#[cfg(target_arch = "x86_64")]
+pub mod x86_shuffle {
+    use core::arch::x86_64::*;
+    /// PACKSSWB: 16 -> 8 bit signed saturation, lanes of `a` then lanes of `b`
+    pub unsafe fn mm_packs_epi16(a: __m128i, b: __m128i) -> __m128i {
+        let a: [i16; 8] = core::mem::transmute(a);
+        let b: [i16; 8] = core::mem::transmute(b);
+        let mut r = [0i8; 16];
+        let mut i = 0;
+        while i < 8 {
+            r[i] = if a[i] > 127 { 127 } else if a[i] < -128 { -128 } else { a[i] as i8 };
+            r[i + 8] = if b[i] > 127 { 127 } else if b[i] < -128 { -128 } else { b[i] as i8 };
+            i += 1;
+        }
+        core::mem::transmute(r)
+    }
+    /// PSHUFB: bit 7 of the control byte zeroes, low 4 bits select
+    pub unsafe fn mm_shuffle_epi8(a: __m128i, b: __m128i) -> __m128i {
+        let a: [u8; 16] = core::mem::transmute(a);
+        let b: [u8; 16] = core::mem::transmute(b);
+        let mut r = [0u8; 16];
+        let mut i = 0;
+        while i < 16 { r[i] = if b[i] & 0x80 != 0 { 0 } else { a[(b[i] & 15) as usize] }; i += 1; }
+        core::mem::transmute(r)
+    }
+    /// VPSHUFB: PSHUFB per 128-bit lane
+    pub unsafe fn mm256_shuffle_epi8(a: __m256i, b: __m256i) -> __m256i {
+        let a: [u8; 32] = core::mem::transmute(a);
+        let b: [u8; 32] = core::mem::transmute(b);
+        let mut r = [0u8; 32];
+        let mut i = 0;
+        while i < 32 { let lane = i & 16; r[i] = if b[i] & 0x80 != 0 { 0 } else { a[lane + (b[i] & 15) as usize] }; i += 1; }
+        core::mem::transmute(r)
+    }
+}
